@@ -1,6 +1,12 @@
 """./check <ID> [--tier quick|thorough] [--replay file] [--jobs N]"""
 import argparse, importlib, json, os, sys, time
 
+# The library is imported, and most shards run, in a time zone west of Greenwich (UTC-10, no daylight saving): the
+# local date of the Unix epoch is then 1969-12-31, which exposes any use of local-time functions for what the
+# database defines as days / seconds since 1970-01-01 UTC. Half of the shards switch to UTC+13 (vf.runner).
+os.environ["TZ"] = os.environ.get("VERIF_TZ", "HST10")
+time.tzset()
+
 
 def main(argv=None):
     ap = argparse.ArgumentParser()
